@@ -269,6 +269,29 @@ def r08_2(ctx, rep):
                 elif f.name in ("build_instance_tree",) or any(is_name(c.func, f.name) for g in funcs for c in calls(g) if g.name == "build_instance_tree"):
                     n += 1
                     rep.ob(R, fsite, "derived argument #%d" % n, False, "a ClassModificationArgument is built without taking over any scope")
+    # arguments unwrapped from a nested class modification `x(start = p)` keep the scope of the argument they were nested in
+    from ..pyutil import stmt_list_of
+    env = _env_of(fn)
+    for recv, argx, node in _merge_sites(fn):
+        if _role(recv, env) == "from_env" and _role(argx, env) == "env_part" and isinstance(argx, ast.Attribute) and isinstance(argx.value, ast.Name):
+            el = argx.value.id
+            lv = _enclosing_arg_loop(node, fn)
+            st = node
+            while st is not None and not isinstance(st, ast.stmt):
+                st = getattr(st, "_parent", None)
+            block = stmt_list_of(st) or []
+            before = block[:block.index(st)] if st in block else []
+            ok = False
+            for b in before:
+                if isinstance(b, ast.For) and norm(b.iter) == "%s.arguments" % el and isinstance(b.target, ast.Name):
+                    for a in ast.walk(b):
+                        if isinstance(a, ast.Assign) and norm(a.targets[0]) == b.target.id + ".scope" and lv is not None and norm(a.value) == lv + ".scope":
+                            ok = True
+            n += 1
+            rep.ob(R, site, "unwrapped nested arguments #%d" % n, ok,
+                   "`%s` moves the arguments of a nested modification such as x(start = p) to the symbol without giving them the scope of "
+                   "the argument they were written in (%s.scope): p is then looked up inside the component instead of where the "
+                   "modification was written, and the nested spelling differs from the dotted one" % (norm(node)[:70], lv or "<argument>"))
     cfg = CFG(fn, R)
     _k, sym, _lp = _symbol_loop(fn)
     inst = _env_of(fn).get("instance")
@@ -394,6 +417,40 @@ def r08_4(ctx, rep):
     rep.ob(R, site, "kept arguments stored back", keep, "after applying, the symbol keeps exactly the arguments of other scopes")
 
 
+@SPEC.rule(
+    "R08.5",
+    "built-in-ness is read from the flattened base: in flatten_extends the test `<base>.type == \"__builtin\"` (which "
+    "decides whether the modifications are redirected to the value symbol) is dominated by `<base> = "
+    "flatten_extends(<base>, ...)` — a type derived in two steps (type T2 = T; type T = Real(..)) is built-in only "
+    "after its own extends clause was flattened, otherwise modifications on T2 components are silently dropped",
+)
+def r08_5(ctx, rep):
+    R = "R08.5"
+    fn = ctx.func(TREE, "flatten_extends", R)
+    cfg = CFG(fn, R)
+    site = TREE + ":flatten_extends"
+    bases = _env_of(fn)["bases"]
+    if not bases:
+        raise MechanismMissing(R, "recursive flatten_extends(<base>, ...) not found")
+    n = 0
+    for x in cfg.nodes:
+        if x.kind != "test":
+            continue
+        for c in ast.walk(x.ast):
+            if isinstance(c, ast.Compare) and isinstance(c.left, ast.Attribute) and c.left.attr == "type" and isinstance(c.left.value, ast.Name) \
+                    and c.left.value.id in bases and any(isinstance(k, ast.Constant) and k.value == "__builtin" for k in c.comparators):
+                n += 1
+                b = c.left.value.id
+                flat = {y.id for y in cfg.stmts() if isinstance(y.ast, ast.Assign) and is_name(y.ast.targets[0], b) and isinstance(y.ast.value, ast.Call)
+                        and is_name(y.ast.value.func, "flatten_extends")}
+                ok = bool(flat & cfg.dominators()[x.id])
+                rep.ob(R, site, "built-in test #%d on the flattened base" % n, ok,
+                       "`%s` is evaluated before %s was flattened: for `type T2 = T; type T = Real(...)` the direct parent T is not "
+                       "built-in yet, T2's modification environment is not moved to its value symbol and `T2 y(start = 3)` keeps start 0" % (norm(c), b))
+    if n < 1:
+        raise MechanismMissing(R, "no `<base>.type == \"__builtin\"` test left in flatten_extends")
+
+
 # -- seeded variants ---------------------------------------------------------
 from ._mut import delete_stmt_where, replace_in_func  # noqa: E402
 
@@ -461,3 +518,37 @@ def _m6(mod):
 @SPEC.mutant("non-elementary modification not cleared", TREE, "R08.1", "type.symbols")
 def _m7(mod):
     return mod if delete_stmt_where(mod, "build_instance_tree", lambda st: norm(st) == "sym.class_modification = None") else None
+
+
+@SPEC.mutant("built-in test before the base is flattened", TREE, "R08.5", "built-in test")
+def _m_builtin(mod):
+    def edit(fn):
+        for lp in ast.walk(fn):
+            if isinstance(lp, ast.For):
+                idx_t = [i for i, st in enumerate(lp.body) if isinstance(st, ast.If) and "'__builtin'" in norm(st.test)]
+                idx_f = [i for i, st in enumerate(lp.body) if isinstance(st, ast.Assign) and isinstance(st.value, ast.Call) and is_name(st.value.func, "flatten_extends")]
+                if idx_t and idx_f and idx_f[0] < idx_t[0]:
+                    st = lp.body.pop(idx_t[0])
+                    lp.body.insert(idx_f[0], st)
+                    return True
+        return False
+
+    return mod if replace_in_func(mod, "flatten_extends", edit) else None
+
+
+@SPEC.mutant("nested arguments moved without their scope", TREE, "R08.2", "unwrapped nested arguments")
+def _m_nested_scope(mod):
+    def edit(fn):
+        for node in ast.walk(fn):
+            for fld in ("body", "orelse"):
+                b = getattr(node, fld, None)
+                if isinstance(b, list):
+                    for i, st in enumerate(b):
+                        if isinstance(st, ast.For) and norm(st.iter).endswith(".arguments") and any(
+                                isinstance(a, ast.Assign) and norm(a.targets[0]).endswith(".scope") for a in ast.walk(st)) \
+                                and i + 1 < len(b) and ".arguments.extend(" in norm(b[i + 1]):
+                            del b[i]
+                            return True
+        return False
+
+    return mod if replace_in_func(mod, "build_instance_tree", edit) else None
